@@ -499,7 +499,12 @@ bool TSDataMutationView::invalidate() {
   if (const auto *ownership = table.ownership_ops; ownership != nullptr) {
     const std::size_t children =
         ownership->child_count(table.context, current.data());
-    for (std::size_t index = 0; index < children; ++index) {
+    // Highest index first: the first child mutation of a cycle opens the
+    // container's delta window, which flushes slots still pending erase
+    // from an earlier cycle. That only ever lowers the index of the
+    // remaining children, so a descending walk still reaches every live
+    // child (an ascending one skipped one).
+    for (std::size_t index = children; index-- > 0;) {
       const auto child_ref =
           ownership->child_at(table.context, storage_.data(), index);
       if (!child_ref.type || child_ref.data == nullptr) {
